@@ -90,7 +90,7 @@ def _repeats(run, exe, flags, hx):
     for x in it:
         if x in ("--stack", "--faults"):
             keep += [x, next(it, "0")]
-        elif x in ("--lean", "--noops", "--libc", "--dedup"):
+        elif x in ("--lean", "--noops", "--libc", "--dedup", "--nodesc"):
             keep.append(x)
     rc, err = run_harness(run, exe, keep + ["hex", f], os.devnull, timeout=600)
     return rc != 0
@@ -296,7 +296,7 @@ def _c01_sweeps(run):
     def work(job):
         k, lo, hi = job
         out = run.path("sweep-%d-%d.ndjson" % (k, lo))
-        st = _record_loads(run, exe, ["--lean", "bytesk", str(k), str(lo), str(hi)], out, "exhaustive %d-byte sweep" % k, timeout=3600)
+        st = _record_loads(run, exe, ["--lean", "bytesk", str(k), str(lo), str(hi)], out, "exhaustive %d-byte sweep" % k, timeout=9000)
         bad = []
         with open(out) as f:
             for l in f:
@@ -368,7 +368,7 @@ def C19(run):
         kb = 64 + 2 * Lv
         out = run.path("stack-L%s.ndjson" % Lv)
         open(out, "w").close()
-        st = _record_loads(run, exe, ["--stack", str(kb), "--lean", "nest"], out, "nesting families on a %d KiB stack (L=%d)" % (kb, Lv))
+        st = _record_loads(run, exe, ["--stack", str(kb), "--lean"] + (["--nodesc"] if Lv > 4096 else []) + ["nest"], out, "nesting families on a %d KiB stack (L=%d)" % (kb, Lv))
         stack_runs += st["executed"]
         # shallow trees whose payloads / member counts are 8x the stack budget: stack use must not grow with them
         st = _record_loads(run, exe, ["--stack", str(kb), "--lean", "big", str(8 * kb)], out, "large shallow trees on a %d KiB stack (L=%d)" % (kb, Lv))
@@ -490,7 +490,7 @@ def C03(run):
 def C07(run):
     q = run.quick()
     mc = tlc_mc(run, "MC_RoundTrip", workers=NCPU)
-    mc, res, out, n, cases, shapes, nontriv = _ser_check(run, "C07", ["--sern", "--wildhalf"], [("api", 700 if q else 12000), ("dec", 500 if q else 12000), ("edge", 0)], "size / serialize / serialize_alloc agreement", mc)
+    mc, res, out, n, cases, shapes, nontriv = _ser_check(run, "C07", ["--sern", "--wildhalf"], [("api", 700 if q else 60000), ("dec", 500 if q else 60000), ("edge", 0)], "size / serialize / serialize_alloc agreement", mc)
     lib = build_lib(run, "dbg")
     exe = build_harness(run, lib, "h_enc", ["vh.c", "h_enc.c"])
     eout = run.path("encn.ndjson")
@@ -535,7 +535,7 @@ def C10(run):
 def C11(run):
     q = run.quick()
     mc = tlc_mc(run, "MC_RoundTrip", workers=NCPU)
-    mc, res, out, n, cases, shapes, nontriv = _ser_check(run, "C11", ["--copy", "--wildhalf"], [("api", 2500 if q else 40000), ("dec", 1500 if q else 30000), ("edge", 0)], "cbor_copy", mc)
+    mc, res, out, n, cases, shapes, nontriv = _ser_check(run, "C11", ["--copy", "--wildhalf"], [("api", 2500 if q else 120000), ("dec", 1500 if q else 100000), ("edge", 0)], "cbor_copy", mc)
     write_evidence(run, "model_checking", {
         "states": mc["distinct"], "transitions": mc["generated"], "traces_validated_against_impl": cases - len(res["rejects"]),
         "samples": _sample_lines(out, 1, lambda l: '"copy"' in l and '"nc":2' in l), "evaluations": cases, "distinct_nontrivial": nontriv, "distinct_shapes": shapes,
@@ -708,7 +708,7 @@ def _items_check(run, judge, cfgs, plans, what):
 def C04(run):
     q = run.quick()
     cfgs = ["MC_Items_arr", "MC_Items_map", "MC_Items_tag", "MC_Items_chunk", "MC_Items_copysmall"] + ([] if q else ["MC_Items_copy"])
-    mcs, res, out, n, hist, ops, kinds = _items_check(run, "C04", cfgs, [["hist", "700" if q else "6000", "60" if q else "80"], ["sim", "40" if q else "800"]], "ownership history")
+    mcs, res, out, n, hist, ops, kinds = _items_check(run, "C04", cfgs, [["hist", "700" if q else "20000", "60" if q else "80"], ["sim", "40" if q else "2500"]], "ownership history")
     write_evidence(run, "model_checking", {
         "states": sum(m["distinct"] for m in mcs), "transitions": sum(m["generated"] for m in mcs),
         "traces_validated_against_impl": hist - len(res["rejects"]),
@@ -727,7 +727,7 @@ def C12(run):
     q = run.quick()
     cfgs = ["MC_Items_arr", "MC_Items_map", "MC_Items_chunk"]
     mcs, res, out, n, hist, ops, kinds = _items_check(run, "C12", cfgs,
-        [["hist", "500" if q else "5000", "60" if q else "80", "containers"], ["grow", "40000" if q else "400000", "0"], ["sim", "30" if q else "600"]], "container history")
+        [["hist", "500" if q else "20000", "60" if q else "80", "containers"], ["grow", "40000" if q else "400000", "0"], ["sim", "30" if q else "2500"]], "container history")
     write_evidence(run, "model_checking", {
         "states": sum(m["distinct"] for m in mcs), "transitions": sum(m["generated"] for m in mcs),
         "traces_validated_against_impl": hist - len(res["rejects"]),
@@ -757,7 +757,7 @@ def C13(run):
     nrun = 0
     for mode in ("c13", "c13arena"):
         part = run.path("alloc-%s.ndjson" % mode)
-        _record_simple(run, exe, [mode, "600" if q else "15000"], part, "allocator workload (%s)" % mode)
+        _record_simple(run, exe, [mode, "600" if q else "60000"], part, "allocator workload (%s)" % mode)
         with open(out, "ab") as fo, open(part, "rb") as fi:
             fo.write(fi.read())
     # nesting beyond the decoder's limit, against a build with a small limit (short logs)
@@ -770,7 +770,7 @@ def C13(run):
     # the ownership histories of C04 under the same allocator: foreign / repeated frees and leaks are judged there as well
     exe2 = build_harness(run, lib, "h_items_w", ITEMS_SRC, extra=WRAP)
     hist = run.path("items.ndjson")
-    _record_simple(run, exe2, ["hist", "200" if q else "5000", "50"], hist, "API histories under the instrumenting allocator")
+    _record_simple(run, exe2, ["hist", "200" if q else "20000", "50"], hist, "API histories under the instrumenting allocator")
     bad_end = [l for l in open(hist) if l.startswith('{"e":"end"') and ('"live":0,' not in l or '"foreign":0' not in l)]
     for l in bad_end[:3]:
         report_violation(run, "history-end " + l.strip()[:80], "API history left blocks live or released a foreign/stale pointer: " + l.strip(), {"line": l.strip()})
@@ -808,7 +808,7 @@ def C06(run):
     skip, crashes = -1, 0
     while True:
         part = run.path("fault-part.ndjson")
-        args = ["c06", "60" if q else "1500"] + (["--skip", str(skip)] if skip >= 0 else [])
+        args = ["c06", "60" if q else "6000"] + (["--skip", str(skip)] if skip >= 0 else [])
         rc, err = run_harness(run, exe, args, part, timeout=3000)
         data = open(part, "rb").read()
         if rc != 0:
@@ -856,7 +856,7 @@ def C09(run):
     lib = build_lib(run, "dbg")
     exe = build_harness(run, lib, "h_stream", ["vh.c", "h_gen.c", "h_stream.c"])
     out = run.path("stream.ndjson")
-    _record_simple(run, exe, ["150" if q else "3000", "600" if q else "3000"], out, "incremental client")
+    _record_simple(run, exe, ["150" if q else "12000", "600" if q else "3000"], out, "incremental client")
     if any('"livelock"' in l for l in open(out)):
         report_violation(run, "stream-livelock", "the incremental client kept calling the decoder without progress (a wait that does not exceed what is buffered)", {})
     n = count_lines(out)
@@ -985,11 +985,11 @@ def C17(run):
     libt = build_lib(run, "tsan")
     exet = build_harness(run, libt, "h_threads", ["h_threads.c"], extra=["-fsanitize=thread"], libs=["-ldl"])
     runs = 0
-    seeds = range(run.seed, run.seed + (3 if q else 12))
+    seeds = range(run.seed, run.seed + (3 if q else 30))
     for sd in seeds:
         for T in ((2, 8, 16) if q else (2, 3, 4, 8, 12, 16)):
             part = run.path("tsan-%d-%d.ndjson" % (sd, T))
-            rc, err = run_harness(run, exet, ["run", str(T), "150" if q else "1500"], part, env={"VERIF_SEED": str(sd)})
+            rc, err = run_harness(run, exet, ["run", str(T), "150" if q else "3000"], part, env={"VERIF_SEED": str(sd)})
             runs += 1
             if rc != 0:
                 m = re.search(r"WARNING: ThreadSanitizer: (.*)\n(?:.*\n){0,12}", err)
@@ -1020,7 +1020,7 @@ def C18(run):
         exe = build_harness(run, lib, "h_ro", ["vh.c", "h_tree.c", "h_gen.c", "h_ro.c"])
         for mode in ("api", "dec"):
             part = run.path("ro-%s-%s.ndjson" % (variant, mode))
-            _record_simple(run, exe, [mode, "700" if q else "15000"], part, "read-only operations on a write-protected tree (%s)" % variant)
+            _record_simple(run, exe, [mode, "700" if q else "50000"], part, "read-only operations on a write-protected tree (%s)" % variant)
             open(out, "ab").write(open(part, "rb").read())
     n = count_lines(out)
     res = tracecheck(run, "Trace_ReadOnly", out, boundary=None)
